@@ -39,9 +39,10 @@ type SSTableInfo struct {
 
 // Overlaps checks if this SSTable's key range overlaps with another SSTable
 func (s *SSTableInfo) Overlaps(other *SSTableInfo) bool {
-	// If either SSTable has no keys, they don't overlap
-	if len(s.FirstKey) == 0 || len(s.LastKey) == 0 ||
-		len(other.FirstKey) == 0 || len(other.LastKey) == 0 {
+	// If either SSTable has no keys, they don't overlap. "No keys" is nil: the empty key is a
+	// legal first (and last) key
+	if s.FirstKey == nil || s.LastKey == nil ||
+		other.FirstKey == nil || other.LastKey == nil {
 		return false
 	}
 
